@@ -37,7 +37,7 @@ extern "C" {
    extern double g_set_rval; extern unsigned int g_set_uval;
    extern int g_stoi_ret; extern double g_stod_ret; extern unsigned long g_stoul_ret; extern long g_strtol4, g_strtol5;
    extern int g_conv_ok, g_setter_ret;
-   extern int g_slack;
+   extern int g_slack; extern int g_k; extern char v_g;
    void token_clean(int off);                          /* contract.c: the token at this offset is properly terminated */
 }
 
@@ -83,7 +83,7 @@ static inline long strtol(const char* s, char** end, int base)
    __CPROVER_assert(end == nullptr && (base == 4 || base == 5), "strtol stub: only the calls of the slice");
    g_ncalls = 1;
    g_pvoff = (int)(s - gp_line);
-   token_clean(g_pvoff);
+  
    return base == 4 ? g_strtol4 : g_strtol5;
 }
 
@@ -97,19 +97,19 @@ namespace std
 {
 static inline int stoi(const char* s)
 {
-   CSTRING_ARG(s); g_ncalls = 1; g_pvoff = (int)(s - gp_line); token_clean(g_pvoff);
+   CSTRING_ARG(s); g_ncalls = 1; g_pvoff = (int)(s - gp_line);
    if(!g_conv_ok) CONV_THROW("std::stoi")
    return g_stoi_ret;
 }
 static inline double stod(const char* s)
 {
-   CSTRING_ARG(s); g_ncalls = 1; g_pvoff = (int)(s - gp_line); token_clean(g_pvoff);
+   CSTRING_ARG(s); g_ncalls = 1; g_pvoff = (int)(s - gp_line);
    if(!g_conv_ok) CONV_THROW("std::stod")
    return g_stod_ret;
 }
 static inline unsigned long stoul(const char* s)
 {
-   CSTRING_ARG(s); g_ncalls = 1; g_pvoff = (int)(s - gp_line); token_clean(g_pvoff);
+   CSTRING_ARG(s); g_ncalls = 1; g_pvoff = (int)(s - gp_line);
    if(!g_conv_ok) CONV_THROW("std::stoul")
    return g_stoul_ret;
 }
@@ -145,7 +145,6 @@ static inline int strncmp(const char* a, NameRef b, size_t n)
    __CPROVER_assert(n == SPX_SET_MAX_LINE_LEN, "name compare uses SPX_SET_MAX_LINE_LEN");
    g_ncalls = 1;
    g_pnoff = (int)(a - gp_line);
-   token_clean(g_pnoff);
    const unsigned char* m = b.kind == 0 ? gp_mb : (b.kind == 1 ? gp_mi : gp_mr);
    return m[b.idx] ? 0 : 1;
 }
@@ -203,6 +202,7 @@ struct Host
       g_nsets++; g_set_kind = kind; g_set_param = param;
       g_toff = g_ptoff; g_noff = g_pnoff; g_voff = g_pvoff;
       g_type_tag = spec_type(gp_line + g_ptoff);
+      token_clean(g_ptoff); token_clean(g_pnoff); token_clean(g_pvoff);   /* all three tokens are properly terminated strings */
    }
    bool setBoolParam(const BoolParam param, const bool value, const bool init = true)
    {
@@ -259,6 +259,7 @@ static inline int spxSnprintf(char* t, size_t len, const char* s, const char* ar
    t[g_len] = '\0';
    if(g_slack) t[g_len + 1] = '\0';
    gp_line = t;
+   v_g = t[g_k];                                      /* ghost snapshot: the copy's byte at the ghost index */
    return g_len;
 }
 struct H : Host
